@@ -699,6 +699,9 @@ func Run(c *common.Ctx) error {
 			}
 		}
 	}
+	if err := forwardedFiles(c); err != nil {
+		return err
+	}
 	slowEvents(c, w.nodes["primary"], "primary")
 	slowEvents(c, w.nodes["replica"], "replica")
 	// and they restart on their data directories
@@ -732,6 +735,8 @@ func coqReq(q apiReq) string {
 	id := map[string]string{"absent": "IdBad", "garbage": "IdBad", "empty": "IdBad", "overflow": "IdBad", "zero": "IdZero", "other": "IdOther", "neg": "IdOther", "held": "IdHeld"}[q.ID]
 	node := map[string]string{"absent": "NdBad", "garbage": "NdBad", "self": "NdSelf", "connected": "NdConnected", "unknown": "NdUnknown"}[q.Node]
 	role := map[string]string{"primary": "RPrimary", "replica": "RReplica", "noprimary": "RNoPrimary"}[q.Role]
-	return fmt.Sprintf("(mk_req %s %s %s %s %s %s %s %s %s %s)", role, path, meth, name, id, node, common.CoqBool(q.Hdr == "self"), common.CoqBool(q.Proto == "h2c"),
+	// (the last field - a forwarded file that continues the position with a wrong post-apply checksum - is exercised by
+	// forwardedFiles on a cluster of its own: the node stops itself)
+	return fmt.Sprintf("(mk_req %s %s %s %s %s %s %s %s %s %s false)", role, path, meth, name, id, node, common.CoqBool(q.Hdr == "self"), common.CoqBool(q.Proto == "h2c"),
 		common.CoqBool(q.Body == "good"), common.CoqBool(q.Halted))
 }
